@@ -190,4 +190,9 @@ theorem slppReadL_cut_json (C : CodecT KVs) (T : TextOracle) (g : PGame KVs) (st
       .ok (if skip then { g with frames := none } else g) :=
   _root_.Peppi.slppReadL_cut_json C T g startBytes endBytes hstart hend hgecko hs skip n
 
+/- from `Peppi.SlppCut` -/
+theorem slppReadL_noPanic {χ : Type} (C : CodecT χ) (T : TextOracle) (skip : Bool) (bs : Bytes) (s : String) :
+    slppReadL C.toCodec T skip bs ≠ .panic s :=
+  _root_.Peppi.slppReadL_noPanic C T skip bs s
+
 end Peppi.Props.C07
